@@ -100,6 +100,8 @@ type concretizer struct {
 	media2  []byte
 	nextCh  int
 	cur     assetInfo // asset of the request being built (livesim2 / patch)
+	instMS  int64     // nowMS of the request being built when its query class is an instant class (t_*)
+	early   bool
 }
 
 func newConcretizer(seed int64, repo string) (*concretizer, error) {
@@ -312,7 +314,9 @@ func (c *concretizer) value(key, class string) string {
 		case "one":
 			return c.pick("u1", "u1d1")
 		case "huge":
-			return c.pick("u"+hugeStr, "u99999999999999999999", "u"+hugeStr+"d"+hugeStr, "u4294967296")
+			// durations are accumulated in an int: 2 x 2^63 and 4 x 2^62 wrap the cycle length to 0
+			return c.pick("u9223372036854775808d9223372036854775808", "u4611686018427387904d4611686018427387904u4611686018427387904d4611686018427387904",
+				"u9223372036854775808d9223372036854775808", "u"+hugeStr, "u99999999999999999999", "u"+hugeStr+"d"+hugeStr, "u4294967296")
 		case "nonnum":
 			return c.pick("abc", "x10", "uu", "ud", "u10x")
 		case "float":
@@ -419,6 +423,22 @@ func (c *concretizer) livesimPath(a absReq, kvs []kv) (string, string) {
 	}
 	// number of a segment that ended >= 2 segment durations ago (startNumber 0, AST 0)
 	live := nowS/segS - 3 + snr
+	if c.early {
+		// instant classes around the stream start: the newest complete segment or an older one (down to the first)
+		startS := int64(0)
+		for _, x := range kvs {
+			if x.k == "start" || x.k == "ast" {
+				if n, ok := leadingInt(x.v); ok {
+					startS = n
+				}
+			}
+		}
+		done := (c.instMS/1000 - startS) / segS // complete segments at the instant
+		live = snr
+		if done > 0 && done < 1000 {
+			live = snr + done - 1 - c.rng.Int63n(done)
+		}
+	}
 	if live < 0 {
 		live = 0
 	}
@@ -522,6 +542,8 @@ func (c *concretizer) liveQuery(q string) string {
 		return "nowMS=" + b
 	case "now_none":
 		return ""
+	case "t_start", "t_first", "t_early":
+		return "nowMS=" + strconv.FormatInt(c.instMS, 10)
 	case "now_bad":
 		return "nowMS=" + c.pick("abc", "1.5", "", "1e12")
 	case "now_neg":
@@ -774,6 +796,26 @@ func (c *concretizer) concretize(id int, a absReq, rep int) job {
 	}
 	for _, p := range a.Parts {
 		kvs = append(kvs, kv{p.K, p.C, c.value(p.K, p.C)})
+	}
+	c.early = strings.HasPrefix(a.Query, "t_")
+	if c.early {
+		startS := int64(0)
+		for _, x := range kvs {
+			if x.k == "start" || x.k == "ast" {
+				if n, ok := leadingInt(x.v); ok && n > -(1<<40) && n < 1<<40 {
+					startS = n
+				}
+			}
+		}
+		seg := int64(c.cur.segDurMS)
+		switch a.Query {
+		case "t_start":
+			c.instMS = startS * 1000
+		case "t_first":
+			c.instMS = startS*1000 + []int64{1, 1000, seg - 1, seg / 2}[c.rng.Intn(4)]
+		default: // t_early: 2 or 3 complete segments, inside the first status-code cycle
+			c.instMS = startS*1000 + int64(2+c.rng.Intn(2))*seg + 500
+		}
 	}
 	switch a.Ep {
 	case "livesim2":
